@@ -37,6 +37,13 @@ Theorem never_above_endpoints_endpoint_branch : forall x a b m,
 Proof. intros x a b m H. split; [exact (endpoint_branch_exact x a b m H) | exact (endDist_le_four x a b)]. Qed.
 Print Assumptions never_above_endpoints_endpoint_branch.
 
+(** never_above_endpoints for every branch, under H_EDGEDIST (interior value <= endpoint value + bound) *)
+Theorem never_above_endpoints_under_H_EDGEDIST : H_EDGEDIST -> forall x a b,
+  bounded_point x -> bounded_point a -> bounded_point b ->
+  R_of (dist2 x a b) <= R_of (endDist x a b) + Rmax 0 (R_of (s2_minUpdateDistanceMaxError (dist2 x a b))).
+Proof. exact never_above_endpoints_H. Qed.
+Print Assumptions never_above_endpoints_under_H_EDGEDIST.
+
 (** ** threshold forms *)
 Theorem threshold_is_flag : forall x a b l,
   s2_IsDistanceLess x a b l = snd (s2_UpdateMinDistance x a b l) /\
